@@ -501,6 +501,19 @@ def separated(t1, t2):
     return len(a) < len(b) and b[:len(a)] == a
 
 
+def out_separated(t1, t2, key):
+    """must the same request made at two different stream states return different data?  yes if the
+    streams are different (roots), or if the later state is reached from the earlier one by first
+    serving this very request (disjoint consecutive segments: "successive calls").  NOT in general for
+    two nearby positions of one stream: a rejection sampler (legacy gauss, gamma) that discards the
+    words by which the positions differ returns identical values from both."""
+    (r1, d1), (r2, d2) = parse_term(t1), parse_term(t2)
+    if r1 != r2:
+        return True
+    a, b = (d1, d2) if len(d1) <= len(d2) else (d2, d1)
+    return len(a) < len(b) and b[:len(a)] == a and b[len(a)] == key
+
+
 def compare(hist, log, steps):
     """-> (problems, stats): problems is a list of (kind, detail)."""
     n_init = len(hist.init_ops())
@@ -541,7 +554,7 @@ def compare(hist, log, steps):
             group = ('m', hist.models[op[1]][0].name, op[2].label)
             sep_ok = hist.models[op[1]][0].continuous and op[2].draws
         else:
-            group = ('d', op[1]) if op[0] == 'D' else ('b',)
+            group = ('d', op[1], op[3]) if op[0] == 'D' else ('b', op[2])
             sep_ok = op[0] == 'B' or op[1] != 'univariate_bernoulli'
         outs.setdefault((group, mres), []).append((f'r@{t}', res[1]))
         out_meta[(group, mres)] = sep_ok
@@ -572,7 +585,7 @@ def compare(hist, log, steps):
             if k1[0] != k2[0] or not (out_meta[k1] and out_meta[k2]):
                 continue
             s1, s2 = k1[1][3:].split(';')[0].split('/'), k2[1][3:].split(';')[0].split('/')
-            if s1[1:] == s2[1:] and s1[0] != s2[0] and separated(s1[0], s2[0]):
+            if s1[1:] == s2[1:] and s1[0] != s2[0] and out_separated(s1[0], s2[0], s1[1]):
                 n_sep += 1
                 if outs[k1][0][1] == outs[k2][0][1]:
                     problems.append(('separate', f'outputs {outs[k1][0][0]} and {outs[k2][0][0]} of {k1[0]} drawn at states '
